@@ -7,10 +7,20 @@ package basichost
 // each with a real resource manager behind the refusing decorator and a scripted gater, inside a
 // testing/synctest bubble. One run: Connect (swarm dial: gater hooks, dial worker, upgrade, identify on both
 // sides), then one NewStream + echo (lazy or fully negotiated protocol selection, or an unsupported protocol,
-// or a handler that resets), then Close of both hosts - with at most one fault. Audits:
+// or a handler that resets, or a protocol the opener wrongly believes the peer speaks, or a peerstore that
+// fails when asked what the peer speaks), then Close of both hosts - with at most one fault. The remote may
+// stall the opener (case.Stall): it never answers / answers 3 s late the IDENTIFY request of the connection
+// (the connection is then made with Network().DialPeer, which does not wait for identify, so that NewStream
+// finds the identify of its connection in progress and waits for it), or it never / late answers the protocol
+// negotiation of the new stream. On top of the common fault menu those families get the fault kind "ctxend":
+// the NewStream context ends WHILE NewStream is blocked (cancel() at the moment the whole bubble is idle with
+// NewStream still running; a 1 s deadline; no deadline at all and a 2 s HostOpts.NegotiationTimeout). Audits:
 //
 //	mid   after the stream attempt is over and the stream was closed: usage of every scope equals the value
 //	      before NewStream on a side that still has the connection, and the value before Connect otherwise
+//	      (when an identify exchange was in flight before NewStream - stalled identify - the value before
+//	      NewStream less the streams and stream memory, which all belonged to that exchange: it is over by
+//	      then); no connection of either swarm still lists a stream in GetStreams()
 //	final after both hosts are closed: every scope of both resource managers is zero, Conns() and
 //	      ListenAddresses() are empty, every raw connection end and the raw listener were closed by their
 //	      owner, and no goroutine of the bubble is left.
@@ -18,18 +28,21 @@ package basichost
 import (
 	"context"
 	"encoding/json"
+	"errors"
 	"fmt"
 	"io"
 	"os"
 	"runtime"
 	"strings"
 	"sync"
+	"sync/atomic"
 	"testing"
 	"testing/synctest"
 	"time"
 
 	"github.com/libp2p/go-libp2p/core/network"
 	"github.com/libp2p/go-libp2p/core/peer"
+	"github.com/libp2p/go-libp2p/core/peerstore"
 	"github.com/libp2p/go-libp2p/core/protocol"
 	"github.com/libp2p/go-libp2p/p2p/host/eventbus"
 	"github.com/libp2p/go-libp2p/p2p/host/peerstore/pstoremem"
@@ -48,17 +61,71 @@ const (
 
 var c04Payload = []byte("c04-ping")
 
+const (
+	c04LateBy      = 3 * time.Second // a "late" remote answers after this long: inside identify's 5 s and the 10 s negotiation timeout
+	c04ShortCtx    = 1 * time.Second // ctxend:deadline - the NewStream context expires while the remote still stalls
+	c04ShortNegTmo = 2 * time.Second // ctxend:negtimeout - HostOpts.NegotiationTimeout of the opener, its context has no deadline
+	c04NewStreamMax = 2 * time.Minute // virtual: a stream attempt that has not returned by then is recorded as hung and audited as it is
+)
+
+var c04ErrPstore = errors.New("c04: peerstore unavailable")
+
 type c04Case struct {
 	Cfg   memtpt.Config `json:"cfg"`
-	Mode  string        `json:"mode"` // lazy | negotiated | unsupported | handler-reset
+	Mode  string        `json:"mode"`            // lazy | negotiated | unsupported | handler-reset | lazy-stale | pstore-error
+	Stall string        `json:"stall,omitempty"` // what the remote stalls: "" | id-never | id-late | neg-never | neg-late
 	Fault memtpt.Fault  `json:"fault"`
 	// Fault.Kind: none | io | cancel | hostclose | connclose | gater | rcmgr | hostclosecall (Close() of the
-	// side's host issued when that side makes its K-th call of gater hook / resource-manager entry What)
+	// side's host issued when that side makes its K-th call of gater hook / resource-manager entry What) |
+	// ctxend (What = cancel | deadline | negtimeout: how the NewStream context ends while NewStream is blocked)
 	// Fault.Side: "a" (the dialing host / the dialer's raw end) or "b" (the listening host / its raw end);
 	// for hostclose and connclose the raw end whose op index triggers AND the host that closes
 }
 
-func (c c04Case) String() string { return fmt.Sprintf("%s/%s/%s", c.Cfg, c.Mode, c.Fault) }
+func (c c04Case) family() string {
+	if c.Stall == "" {
+		return c.Mode
+	}
+	return c.Mode + "+" + c.Stall
+}
+
+func (c c04Case) String() string { return fmt.Sprintf("%s/%s/%s", c.Cfg, c.family(), c.Fault) }
+
+func (c c04Case) idStall() bool { return strings.HasPrefix(c.Stall, "id-") }
+
+// c04Pstore is the opener's peerstore in mode pstore-error: the real in-memory peerstore, except that
+// SupportsProtocols fails while armed (as a datastore-backed peerstore does when its store is unavailable).
+type c04Pstore struct {
+	peerstore.Peerstore
+	peerstore.CertifiedAddrBook
+	fail atomic.Bool
+}
+
+func (p *c04Pstore) SupportsProtocols(id peer.ID, protos ...protocol.ID) ([]protocol.ID, error) {
+	if p.fail.Load() {
+		return nil, c04ErrPstore
+	}
+	return p.Peerstore.SupportsProtocols(id, protos...)
+}
+
+// c04ConnOnly is what a snapshot taken while only an identify exchange was in flight looks like once that
+// exchange is over: the same connections and descriptors, no streams, no stream memory. (That a connection
+// without streams accounts no memory is checked on the fault-free run of every family without a stalled
+// identify; see c04Result.ConnOnlyOK.)
+func c04ConnOnly(s memnet.Snap) memnet.Snap {
+	z := func(st network.ScopeStat) network.ScopeStat {
+		st.NumStreamsInbound, st.NumStreamsOutbound, st.Memory = 0, 0, 0
+		return st
+	}
+	m := func(in map[string]network.ScopeStat) map[string]network.ScopeStat {
+		out := make(map[string]network.ScopeStat, len(in))
+		for k, v := range in {
+			out[k] = z(v)
+		}
+		return out
+	}
+	return memnet.Snap{System: z(s.System), Transient: z(s.Transient), Peers: m(s.Peers), Protocols: m(s.Protocols), Services: m(s.Services)}
+}
 
 type c04Result struct {
 	Case    c04Case           `json:"case"`
@@ -70,7 +137,13 @@ type c04Result struct {
 	RcCalls [2]map[string]int `json:"rcmgr_calls"`
 	GaCalls [2]map[string]int `json:"gater_calls"`
 	Fired   bool              `json:"fault_fired"`
-	Vios    []memtpt.Vio      `json:"violations,omitempty"`
+	// AtReturn (fault kind ctxend only; an observation, not a verdict): whether usage was already back to its
+	// value before NewStream when NewStream had returned and the bubble was idle, without any time passing
+	AtReturn string `json:"at_return,omitempty"`
+	// ConnOnlyOK (families without a stalled identify): before NewStream, with the connection up and identify
+	// over, no scope accounted a stream or memory - the premise of c04ConnOnly
+	ConnOnlyOK bool              `json:"conn_only_ok,omitempty"`
+	Vios       []memtpt.Vio      `json:"violations,omitempty"`
 	Infra   string            `json:"infra,omitempty"`
 	Trace   []string          `json:"trace,omitempty"`
 }
@@ -84,23 +157,34 @@ func (r *c04Result) class() string {
 	if k == "" {
 		k = "none"
 	}
-	return fmt.Sprintf("%s|%s|connect=%s|stream=%s", r.Case.Mode, k, r.Connect, r.Stream)
+	s := fmt.Sprintf("%s|%s|connect=%s|stream=%s", r.Case.family(), k, r.Connect, r.Stream)
+	if r.AtReturn != "" {
+		s += "|at-return:" + r.AtReturn
+	}
+	return s
 }
 
 type c04Node struct {
 	side *memtpt.Side
 	sw   *swarm.Swarm
 	h    *BasicHost
+	ps   *c04Pstore // nil unless the node was built with the failing peerstore
 }
 
-func c04NewNode(name string, cfg memtpt.Config, n *memtpt.Net, addr string) (*c04Node, error) {
+func c04NewNode(name string, cfg memtpt.Config, n *memtpt.Net, addr string, negTimeout time.Duration, failingPstore bool) (*c04Node, error) {
 	side, err := memtpt.NewSide(name, cfg, memtpt.Seed, memtpt.MustAddr(addr))
 	if err != nil {
 		return nil, err
 	}
-	ps, err := pstoremem.NewPeerstore()
+	mem, err := pstoremem.NewPeerstore()
 	if err != nil {
 		return nil, err
+	}
+	var ps peerstore.Peerstore = mem
+	var fps *c04Pstore
+	if failingPstore {
+		fps = &c04Pstore{Peerstore: mem, CertifiedAddrBook: mem}
+		ps = fps
 	}
 	ps.AddPrivKey(side.ID, side.Key)
 	ps.AddPubKey(side.ID, side.Key.GetPublic())
@@ -115,12 +199,13 @@ func c04NewNode(name string, cfg memtpt.Config, n *memtpt.Net, addr string) (*c0
 	if err := sw.Listen(side.Addr); err != nil {
 		return nil, err
 	}
-	h, err := NewHost(sw, &HostOpts{EventBus: bus})
+	// negTimeout 0 = the default (10 s), negative = no negotiation timeout
+	h, err := NewHost(sw, &HostOpts{EventBus: bus, NegotiationTimeout: negTimeout})
 	if err != nil {
 		return nil, err
 	}
 	h.Start()
-	return &c04Node{side: side, sw: sw, h: h}, nil
+	return &c04Node{side: side, sw: sw, h: h, ps: fps}, nil
 }
 
 func c04ErrClass(err error) string {
@@ -129,6 +214,7 @@ func c04ErrClass(err error) string {
 	}
 	s := err.Error()
 	for _, p := range []struct{ sub, class string }{
+		{c04ErrPstore.Error(), "pstore-error"},
 		{"gater disallows connection to peer", "gater-peer"},
 		{"gater disallows", "gater"},
 		{"gater rejected", "gater-secured"},
@@ -164,12 +250,23 @@ func c04RunInBubble(cs c04Case, res *c04Result) {
 		}
 	}()
 	mnet := memtpt.NewNet()
-	a, err := c04NewNode("a", cs.Cfg, mnet, "/ip4/10.1.1.1/tcp/4001")
+	f := cs.Fault
+	// the opener's negotiation timeout is the default except where it is the thing that ends the context; a
+	// remote that stalls has none, so that only the opener's reset (or the death of the connection) frees
+	// what the remote holds for the new stream - "the remote sees the reset" is then part of the usage audit
+	var negA, negB time.Duration
+	if f.Kind == "ctxend" && f.What == "negtimeout" {
+		negA = c04ShortNegTmo
+	}
+	if cs.Stall != "" {
+		negB = -1
+	}
+	a, err := c04NewNode("a", cs.Cfg, mnet, "/ip4/10.1.1.1/tcp/4001", negA, cs.Mode == "pstore-error")
 	if err != nil {
 		res.Infra = "fixture: " + err.Error()
 		return
 	}
-	b, err := c04NewNode("b", cs.Cfg, mnet, "/ip4/10.2.2.2/tcp/4002")
+	b, err := c04NewNode("b", cs.Cfg, mnet, "/ip4/10.2.2.2/tcp/4002", negB, false)
 	if err != nil {
 		res.Infra = "fixture: " + err.Error()
 		return
@@ -208,6 +305,36 @@ func c04RunInBubble(cs c04Case, res *c04Result) {
 		s.Close()
 	}
 	b.h.SetStreamHandlerMatch(c04Proto, func(p protocol.ID) bool { return strings.HasPrefix(string(p), "/c04/echo/") }, handler)
+	// a stalling remote: the next inbound stream after armStall is parked (never: b never looks at it, it
+	// is held until the opener resets or closes it or the connection dies) or handled c04LateBy later
+	var stallMu sync.Mutex
+	stallNext := ""
+	armStall := func(kind string) {
+		stallMu.Lock()
+		stallNext = kind
+		stallMu.Unlock()
+	}
+	if cs.Stall != "" {
+		b.sw.SetStreamHandler(func(s network.Stream) {
+			stallMu.Lock()
+			k := stallNext
+			stallNext = ""
+			stallMu.Unlock()
+			switch k {
+			case "never":
+				h.Trace("remote: inbound stream parked, b never answers it")
+				_, err := io.Copy(io.Discard, s)
+				h.Trace("remote: the parked stream ended: %v", err)
+				s.Reset()
+				return
+			case "late":
+				h.Trace("remote: inbound stream held back for %v", c04LateBy)
+				time.Sleep(c04LateBy)
+			}
+			b.h.newStreamHandler(s)
+		})
+	}
+	stallKind := cs.Stall[strings.IndexByte(cs.Stall, '-')+1:] // never | late | ""
 	synctest.Wait()
 
 	var preConnect [2]memnet.Snap
@@ -219,7 +346,6 @@ func c04RunInBubble(cs c04Case, res *c04Result) {
 	}
 
 	// ----- arm the fault -----
-	f := cs.Fault
 	ctx, cancel := context.WithTimeout(context.Background(), 30*time.Second)
 	defer cancel()
 	var closeMu sync.Mutex
@@ -312,11 +438,21 @@ func c04RunInBubble(cs c04Case, res *c04Result) {
 	})
 
 	// ----- connect -----
-	err = a.h.Connect(ctx, peer.AddrInfo{ID: b.side.ID, Addrs: b.sw.ListenAddresses()})
-	res.Connect = c04ErrClass(err)
-	h.Trace("Connect: %v", err)
-	// identify runs in both directions; let it finish (its timeout is 5s)
-	time.Sleep(20 * time.Second)
+	if cs.idStall() {
+		// the swarm-level dial does not wait for identify: when it returns, a's identify of the connection
+		// has been started by the Connected notification and is held up by b; no time passes before NewStream
+		armStall(stallKind)
+		a.h.Peerstore().AddAddrs(b.side.ID, b.sw.ListenAddresses(), peerstore.TempAddrTTL)
+		_, err = a.h.Network().DialPeer(ctx, b.side.ID)
+		res.Connect = c04ErrClass(err)
+		h.Trace("DialPeer: %v", err)
+	} else {
+		err = a.h.Connect(ctx, peer.AddrInfo{ID: b.side.ID, Addrs: b.sw.ListenAddresses()})
+		res.Connect = c04ErrClass(err)
+		h.Trace("Connect: %v", err)
+		// identify runs in both directions; let it finish (its timeout is 5s)
+		time.Sleep(20 * time.Second)
+	}
 	synctest.Wait()
 	pairs := mnet.Pairs()
 	if len(pairs) > 0 {
